@@ -35,6 +35,15 @@ type Controller struct {
 	// YieldAfterUnlock adds a scheduling point right after every mutex release ("unlocked"), so that whatever a
 	// method still does after leaving its critical section can interleave with other threads. Set before Install.
 	YieldAfterUnlock bool
+	// Fine makes the mutex shim yield at every attempt to take the mutex (reporting ok / busy), at the release, and lets
+	// the atomic operations INSIDE a critical section yield too (coarse mode runs a critical section as one step).
+	Fine bool
+}
+
+// IsFine reports whether the calling goroutine is controlled by a controller in fine mode.
+func IsFine() bool {
+	c, th := self()
+	return th != nil && c != nil && c.Fine
 }
 
 var current atomic.Pointer[Controller]
